@@ -161,6 +161,49 @@ SEEDS = [
  ("C20-and-then-err-maps-fatal", "C20", "edit 1: MapDecorator gains an overridable map_err hook (default = old dispatch); edit 2: AndThenErrParser overrides map_err instead of map_soft_error",
   "and_then_err around a parser that fails fatally, with a mapper that does not echo its argument",
   "run_demo.sh (c20_and_then_err_fatal.rs integration test)"),
+ # ---- round 6 (second session): the kernels opened by source slicing, and what lies behind them ----
+ ("C03-byref-writeback-lifo", "C03", "dequeue_from_return_stack pops the by-ref queue from the back and generate_un_stash_by_ref_args iterates the arguments in reverse: by-reference results are written back right to left",
+  "one call whose by-reference arguments alias (the same variable, array element or record field twice) and a callee that leaves different values in them",
+  "run_demo.sh (demo.bas vs expected.txt)"),
+ ("C05-gosub-return-tail-call", "C05", "instruction generator, Visitor<Statements>: a GOSUB directly followed by a plain RETURN in the same block is emitted as GOTO ('tail call'), so one pending GOSUB vanishes from the history",
+  "a GOSUB whose next statement is a bare RETURN, into a routine that leaves with RETURN <label> (the caller's frame is popped instead) - or the same pair with an empty GOSUB stack (error 3 reported at another row)",
+  "run_demo.sh (demo.bas vs expected.txt)"),
+ ("C08-fix-length-truncate-char-boundary", "C08", "string_utils::fix_length rewritten with String::truncate(end.min(len)) + extend(repeat_n(' ', ..)): truncate panics inside a two-byte character",
+  "an assignment to a STRING * n (or a \\ \\ field of PRINT USING) of a text longer than n bytes with a character of code 128..255 straddling the cut",
+  "run_demo.sh (demo.bas vs expected.txt)"),
+ ("C11-stacktrace-dedup", "C11", "built-in errors are wrapped with with_err_at instead of with_stacktrace and ErrorEnvelope::appen_draining_stacktrace de-duplicates adjacent positions: repeated call sites disappear from the reported trace",
+  "an untrapped run-time error raised while two or more consecutive active frames were entered from the same call statement (direct recursion two or more levels deep)",
+  "run_demo.sh (demo.bas, stderr vs expected.txt)"),
+ ("C17-instr-skip-partial-match", "C17", "do_instr: after a partial match of k bytes the search advances by max(k, 1) instead of 1 ('no need to look again at the bytes already compared')",
+  "a needle of at least 3 characters that begins with a repeated prefix (aab, anas, issip) and a haystack with a failing partial match of >= 2 characters that overlaps the true first occurrence: INSTR(\"aaab\", \"aab\")",
+  "run_demo.sh (demo.bas vs expected.txt)"),
+
+ # ---- round 7 (second session, after the sliced kernels were built) ----
+ ("C03-static-block-swap-remove", "C03", "Context::do_pop: memory_blocks.remove(i) became swap_remove(i) ('avoid shifting the tail on every return'); the loop that decrements the STATIC indices above i is unchanged",
+  "two different STATIC subprograms entered for the first time during the same activation of an ordinary subprogram; that activation returns; one of the STATIC subprograms is called again",
+  "run_demo.sh (demo.bas vs expected.txt)"),
+ ("C04-single-element-dimension-unchecked", "C04", "VArray::abs_index rewritten as zip().rev() with a shortcut: a dimension of one element is skipped before its bounds check",
+  "an array with a dimension of exactly one element (1 TO 1, -2 TO -2) accessed with an out-of-range index in that dimension: no Subscript out of range, another element is overwritten",
+  "run_demo.sh (demo.bas vs expected.txt)"),
+ ("C05-goto-label-unmarked", "C05", "instruction generator, visit(StatementPos): Label and GoTo statements no longer get a statement-address mark ('they cannot fail')",
+  "an error continued by RESUME NEXT / under ON ERROR RESUME NEXT whose next statement in the same block is a GOTO: the GOTO is skipped",
+  "run_demo.sh (demo.bas vs expected.txt)"),
+ ("C08-mid-split-at-char-boundary", "C08", "do_mid rewritten with str::split_at(start_index) + chars().take(length): split_at panics off a character boundary",
+  "MID$ on a string holding a character of code 128..255 with a start that falls inside that character: MID$(CHR$(200) + \"abc\", 2)",
+  "run_demo.sh (demo.bas vs expected.txt)"),
+ ("C10-hex-leading-zero-width", "C10", "process_hex parses with u32::from_str_radix and chooses the width from the number of digits as written (<= 4: INTEGER) instead of the significant bits",
+  "an &H literal written with leading zeros so that it has 5 or more digits while its significant part has at most 4: &H0FFFF is 65535 (LONG) instead of -1",
+  "run_demo.sh (demo.bas vs expected.txt)"),
+ ("C11-resume-next-restores-stacktrace", "C11", "Interpreter::interpret, ErrorHandler::Next arm: when the call-site stack is empty the positions of the skipped error are copied back into it (posing as a fix for the drained stack after a handled built-in error)",
+  "ON ERROR RESUME NEXT in force, an error of an ordinary instruction skipped in the main module outside any call, then a later unhandled error at any call depth: the old row is listed after the genuine call sites",
+  "run_demo.sh (demo.bas, stderr vs expected.txt)"),
+ ("C12-integer-mod-long-mismatch", "C12", "Variant::modulo: the nested match flattened into a tuple match; the arm that turned 'INTEGER left, rounded right operand not an INTEGER' into Overflow is gone and the pair falls to TypeMismatch",
+  "MOD with an INTEGER left operand and a non-zero LONG right operand (or a float right operand that rounds outside the INTEGER range)",
+  "run_demo.sh (demo.bas vs expected.txt)"),
+ ("C17-right-takes-argument-slot", "C17", "RIGHT$: for count >= LEN(s) the string is moved out of argument slot 0 with mem::replace instead of cloned; the generated code copies slot 0 back into the caller's variable",
+  "RIGHT$(v$, n) with n >= LEN(v$) on a variable, array element or STRING * n, and the variable read again afterwards",
+  "run_demo.sh (demo.bas vs expected.txt)"),
+
 ]
 
 RESULTS_FILE = os.path.join(HERE, "seeded", "results.json")
